@@ -380,6 +380,16 @@ func (s *pState) render(cw *cwriter.Writer) (err error) {
 func (s *pState) flush(cw *cwriter.Writer, height int, iter <-chan *Bar) error {
 	var popCount int
 	var rows []io.Reader
+	var pushes []pushData
+
+	// Heap manager is busy feeding iter, so bars are pushed back only after
+	// iteration is over. Pushing in order through the same queue as the next
+	// cycle's requests guarantees that no cycle (or shutdown) overtakes a push.
+	defer func() {
+		for _, data := range pushes {
+			s.hm.push(data.bar, data.sync)
+		}
+	}()
 
 	for b := range iter {
 		frame := <-b.frameCh
@@ -405,13 +415,13 @@ func (s *pState) flush(cw *cwriter.Writer, height int, iter <-chan *Bar) error {
 			if qb, ok := s.queueBars[b]; ok {
 				delete(s.queueBars, b)
 				qb.priority = b.priority
-				s.hm.push(qb, true)
+				pushes = append(pushes, pushData{qb, true})
 			} else if s.popCompleted && !frame.noPop {
 				b.priority = s.popPriority
 				s.popPriority++
-				s.hm.push(b, false)
+				pushes = append(pushes, pushData{b, false})
 			} else if !frame.rmOnComplete {
-				s.hm.push(b, false)
+				pushes = append(pushes, pushData{b, false})
 			}
 		case 2:
 			if s.popCompleted && !frame.noPop {
@@ -420,7 +430,7 @@ func (s *pState) flush(cw *cwriter.Writer, height int, iter <-chan *Bar) error {
 			}
 			fallthrough
 		default:
-			s.hm.push(b, false)
+			pushes = append(pushes, pushData{b, false})
 		}
 	}
 
